@@ -449,8 +449,80 @@ theorem lastCloseAux_keep (L : Str) (i : Nat) (best : Option Nat)
       simp only [lastCloseAux, h c (by simp), Bool.false_and, Bool.false_eq_true, if_false]
       exact ih _ (fun x hx => h x (List.mem_cons_of_mem _ hx))
 
+/-! ### no `;` directly after a closing bracket (widened domain: several declarations on one line) -/
+
+/-- `ssOK p s`: no `;` of `s` stands directly after a closing bracket (`p`: the character before `s` is one) -/
+def ssOK : Bool → Str → Bool
+  | _, [] => true
+  | p, c :: t => (c != ';' || !p) && ssOK (isCloseB c) t
+
+/-- is the last character of `p`-then-`s` a closing bracket -/
+def lastCl : Bool → Str → Bool
+  | p, [] => p
+  | _, c :: t => lastCl (isCloseB c) t
+
+theorem ssOK_noSemi (p : Bool) (s : Str) (h : ';' ∉ s) : ssOK p s = true := by
+  induction s generalizing p with
+  | nil => rfl
+  | cons c t ih =>
+    have hc : c ≠ ';' := fun e => h (by simp [e])
+    simp only [ssOK, ih _ (fun hm => h (List.mem_cons_of_mem _ hm)), Bool.and_true, Bool.or_eq_true, bne_iff_ne, ne_eq]
+    exact Or.inl hc
+
+theorem ssOK_append (p : Bool) (a b : Str) : ssOK p (a ++ b) = (ssOK p a && ssOK (lastCl p a) b) := by
+  induction a generalizing p with
+  | nil => simp [ssOK, lastCl]
+  | cons c t ih => simp only [List.cons_append, ssOK, lastCl, ih, Bool.and_assoc]
+
+theorem ssOK_prefix (p : Bool) (a b : Str) (h : ssOK p (a ++ b) = true) : ssOK p a = true := by
+  rw [ssOK_append, Bool.and_eq_true] at h; exact h.1
+
+theorem lastCl_append (p : Bool) (a b : Str) : lastCl p (a ++ b) = lastCl (lastCl p a) b := by
+  induction a generalizing p with
+  | nil => rfl
+  | cons c t ih => simp only [List.cons_append, lastCl, ih]
+
+theorem lastCl_plain (p : Bool) (s : Str) (hne : s ≠ []) (h : ∀ c ∈ s, isCloseB c = false) : lastCl p s = false := by
+  induction s generalizing p with
+  | nil => exact absurd rfl hne
+  | cons c t ih =>
+    cases t with
+    | nil => simp only [lastCl]; exact h c (by simp)
+    | cons d t' =>
+      show lastCl (isCloseB c) (d :: t') = false
+      exact ih (isCloseB c) (by simp) (fun x hx => h x (List.mem_cons_of_mem _ hx))
+
+theorem lastCl_plain' (s : Str) (h : ∀ c ∈ s, isCloseB c = false) : lastCl false s = false := by
+  cases s with
+  | nil => rfl
+  | cons c t => exact lastCl_plain _ _ (by simp) h
+
+/-- text without `;` whose last character is no closing bracket, followed by `;` -/
+theorem ssOK_then_semi (p : Bool) (X : Str) (hs : ';' ∉ X) (hl : lastCl p X = false) : ssOK p (X ++ [';']) = true := by
+  rw [ssOK_append, ssOK_noSemi p X hs, hl]; rfl
+
+theorem lastCloseAux_keepW (L : Str) (i : Nat) (best : Option Nat) (p : Bool) (h : ssOK p L = true) :
+    lastCloseAux L i best = best := by
+  induction L generalizing i p with
+  | nil => rfl
+  | cons c t ih =>
+    simp only [ssOK, Bool.and_eq_true] at h
+    have hcond : (isCloseB c && decide (i ≥ 1) && (t.head? == some ';')) = false := by
+      cases t with
+      | nil => simp
+      | cons d t' =>
+        by_cases hd : d = ';'
+        · subst hd
+          have := h.2
+          simp only [ssOK, Bool.and_eq_true, Bool.or_eq_true, bne_iff_ne, ne_eq, not_true_eq_false, false_or,
+            Bool.not_eq_true'] at this
+          simp [this.1]
+        · simp [hd]
+    simp only [lastCloseAux, hcond, Bool.false_eq_true, if_false]
+    exact ih _ _ h.2
+
 theorem lastCloseAux_endL (B : Str) (c : Char) (L : Str) (i : Nat) (best : Option Nat)
-    (h : 1 ≤ i + B.length) (hc : isCloseB c = true) (hL : ';' ∉ L ∨ ∀ c ∈ L, isCloseB c = false) :
+    (h : 1 ≤ i + B.length) (hc : isCloseB c = true) (hL : ssOK false L = true) :
     lastCloseAux (B ++ c :: ';' :: L) i best = some (i + B.length) := by
   induction B generalizing i best with
   | nil =>
@@ -460,21 +532,26 @@ theorem lastCloseAux_endL (B : Str) (c : Char) (L : Str) (i : Nat) (best : Optio
       if_true]
     have hsc : isCloseB ';' = false := by decide
     simp only [hsc, Bool.false_and, Bool.false_eq_true, if_false]
-    rw [lastCloseAux_keep L _ _ hL]; simp
+    rw [lastCloseAux_keepW L _ _ false hL]; simp
   | cons b B' ih =>
     simp only [List.cons_append, lastCloseAux]
     rw [ih]
     · simp; omega
     · simp at h ⊢; omega
 
-/-- `([\[<].*[\]>]|);` at an array suffix, when the rest of the line offers no later `];` -/
+/-- `([\[<].*[\]>]|);` at an array suffix, when the rest of the line offers no later `];` (no condition
+for a declaration without brackets) -/
 theorem arrTail_arrL (A REST : Str) (hA : arrL A)
-    (hL : ';' ∉ REST.takeWhile (· != '\n') ∨ ∀ c ∈ REST.takeWhile (· != '\n'), isCloseB c = false) :
+    (hL : A = [] ∨ ssOK false (REST.takeWhile (· != '\n')) = true) :
     arrTail (A ++ ';' :: REST) = some A := by
   rcases hA with ⟨h1, h2⟩
   rcases h1 with h1 | ⟨⟨o, ho, hoo⟩, ⟨cl, hcl, hclc⟩⟩
   · subst h1; simp [arrTail, isOpenB]
-  · obtain ⟨B, hB⟩ := List.getLast?_eq_some_iff.mp hcl
+  · have hL : ssOK false (REST.takeWhile (· != '\n')) = true := by
+      rcases hL with e | hL
+      · rw [e] at ho; cases ho
+      · exact hL
+    obtain ⟨B, hB⟩ := List.getLast?_eq_some_iff.mp hcl
     have hBne : B ≠ [] := by
       intro e
       rw [e] at hB; rw [hB] at ho; simp at ho; subst ho
@@ -548,7 +625,7 @@ theorem NA_nonSp (p : Mem) (hp : MemOK p) : ∀ c ∈ p.N ++ p.arr ++ [';'], non
 
 theorem scan_membersL (var : Str) (hv : ∀ x ∈ var, isWordCh x = true) (pre : List Mem) (m : Mem)
     (REST : Str) (hpre : ∀ p ∈ pre, MemOK p ∧ p.N ≠ var) (hm : MemOK m) (hmv : m.N = var)
-    (hL : ';' ∉ REST.takeWhile (· != '\n') ∨ ∀ c ∈ REST.takeWhile (· != '\n'), isCloseB c = false) :
+    (hL : m.arr = [] ∨ ssOK false (REST.takeWhile (· != '\n')) = true) :
     ∀ (w0 J0 : Str), w0 ≠ [] → (∀ c ∈ w0, nonSp c = true) → Junk J0 →
       Finds var (w0 ++ J0 ++ ((pre.map Mem.text).flatten ++ (m.text ++ REST))) (some (m.T, m.arr)) := by
   induction pre with
@@ -584,50 +661,140 @@ theorem scan_membersL (var : Str) (hv : ∀ x ∈ var, isWordCh x = true) (pre :
         (NA_nonSp p hp) junk_nil
       simpa only [List.append_assoc, List.cons_append, List.nil_append, List.append_nil] using this
 
-/-- the line that follows the `;` of a member offers no later `];` -/
-theorem rest_line (post : List Mem) (closePre g3 name g4 : Str)
-    (hpost : ∀ q ∈ post, MemOK q ∧ '\n' ∈ q.pre) (hcp : tdWsOK false closePre = true)
-    (hg3 : ∀ c ∈ g3, wsChar c = true) (hg4 : ∀ c ∈ g4, wsChar c = true) (hname : wordy name)
-    (REST : Str)
-    (hR : REST = (post.map Mem.text).flatten ++ (closePre ++ '}' :: (g3 ++ (name ++ (g4 ++ [';']))))) :
-    ';' ∉ REST.takeWhile (· != '\n') ∨ ∀ c ∈ REST.takeWhile (· != '\n'), isCloseB c = false := by
-  have key : ∀ (s Y : Str), tdWsOK false s = true → '\n' ∈ s →
-      ';' ∉ (s ++ Y).takeWhile (· != '\n') := by
-    intro s Y hs hn hm
-    rw [takeWhile_app_of_stop _ _ _ ⟨'\n', hn, by decide⟩] at hm
-    exact tdWs_no_semi false s hs (mem_of_takeWhile _ _ _ hm)
-  cases post with
-  | cons q post' =>
-    left
-    obtain ⟨hq, hqn⟩ := hpost q (by simp)
-    have : REST = q.pre ++ (q.T ++ q.gap ++ (q.N ++ (q.arr ++ ';' :: ((post'.map Mem.text).flatten ++
-        (closePre ++ '}' :: (g3 ++ (name ++ (g4 ++ [';'])))))))) := by
-      rw [hR]
-      simp only [List.map_cons, List.flatten_cons, List.append_assoc]
-      rw [text_app]; simp only [List.append_assoc]
-    rw [this]
-    exact key _ _ hq.2.1 hqn
-  | nil =>
-    have : REST = closePre ++ '}' :: (g3 ++ (name ++ (g4 ++ [';']))) := by rw [hR]; simp
-    rw [this]
-    by_cases hn : '\n' ∈ closePre
-    · left; exact key _ _ hcp hn
-    · right
-      intro c hc
-      have hc' := mem_of_takeWhile _ _ _ hc
-      have hws := tdWs_no_nl closePre hcp hn
-      simp only [List.mem_append, List.mem_cons, List.mem_nil_iff, or_false] at hc'
-      rcases hc' with hc' | hc' | hc' | hc' | hc' | hc'
-      · exact wsChar_not_close c (hws c hc')
-      · subst hc'; decide
-      · exact wsChar_not_close c (hg3 c hc')
-      · exact scan_word_not_close c (hname.2 c hc')
-      · exact wsChar_not_close c (hg4 c hc')
-      · subst hc'; decide
+/-! ### at most one bracketed declaration per line -/
 
-theorem typeSearch_lay (ms : List Mem) (closePre g1 g2 g3 name g4 : Str)
+/-- no bracketed declaration before the next newline -/
+def restNoBr : List Mem → Prop
+  | [] => True
+  | q :: r => '\n' ∈ q.pre ∨ (q.arr = [] ∧ restNoBr r)
+
+/-- a declaration written with brackets is the last such declaration of its line -/
+def LineOK : List Mem → Prop
+  | [] => True
+  | m :: r => (m.arr = [] ∨ restNoBr r) ∧ LineOK r
+
+theorem LineOK_split (pre : List Mem) (m : Mem) (post : List Mem) (h : LineOK (pre ++ m :: post)) :
+    m.arr = [] ∨ restNoBr post := by
+  induction pre with
+  | nil => exact h.1
+  | cons p pre' ih => exact ih h.2
+
+theorem restNoBr_of_nl (r : List Mem) (h : ∀ q ∈ r, '\n' ∈ q.pre) : restNoBr r := by
+  cases r with
+  | nil => trivial
+  | cons q r' => exact Or.inl (h q (by simp))
+
+theorem LineOK_of_all (r : List Mem) (h : ∀ q ∈ r, '\n' ∈ q.pre) : LineOK r := by
+  induction r with
+  | nil => trivial
+  | cons q r' ih =>
+    exact ⟨Or.inr (restNoBr_of_nl r' (fun x hx => h x (by simp [hx]))), ih (fun x hx => h x (by simp [hx]))⟩
+
+/-- the old assumption (every declaration after the first preceded by a newline) is a special case -/
+theorem LineOK_of_nl (ms : List Mem) (h : ∀ m ∈ ms.tail, '\n' ∈ m.pre) : LineOK ms := by
+  cases ms with
+  | nil => trivial
+  | cons m r => exact ⟨Or.inr (restNoBr_of_nl r h), LineOK_of_all r h⟩
+
+theorem takeWhile_app_all {α} (p : α → Bool) (a b : List α) (h : ∀ x ∈ a, p x = true) :
+    (a ++ b).takeWhile p = a ++ b.takeWhile p := by
+  induction a with
+  | nil => rfl
+  | cons x t ih =>
+    simp only [List.cons_append, List.takeWhile, h x (by simp)]
+    rw [ih (fun y hy => h y (by simp [hy]))]
+
+theorem tail_ss (closePre g3 name g4 : Str) (hcp : tdWsOK false closePre = true)
+    (hg3 : ∀ c ∈ g3, wsChar c = true) (hg4 : ∀ c ∈ g4, wsChar c = true) (hname : wordy name) (p : Bool) :
+    ssOK p (closePre ++ '}' :: (g3 ++ (name ++ (g4 ++ [';'])))) = true := by
+  have e : closePre ++ '}' :: (g3 ++ (name ++ (g4 ++ [';']))) = (closePre ++ ('}' :: (g3 ++ (name ++ g4)))) ++ [';'] := by
+    simp only [List.append_assoc, List.cons_append]
+  rw [e]
+  apply ssOK_then_semi
+  · intro hm
+    simp only [List.mem_append, List.mem_cons] at hm
+    rcases hm with hm | hm | hm | hm | hm
+    · exact tdWs_no_semi false _ hcp hm
+    · cases hm
+    · exact wsChar_ne_semi _ (hg3 _ hm) rfl
+    · exact scan_word_ne _ ';' (hname.2 _ hm) (by decide) rfl
+    · exact wsChar_ne_semi _ (hg4 _ hm) rfl
+  · rw [lastCl_append]
+    apply lastCl_plain _ _ (by simp)
+    intro c hc
+    simp only [List.mem_cons, List.mem_append] at hc
+    rcases hc with hc | hc | hc | hc
+    · subst hc; decide
+    · exact wsChar_not_close c (hg3 c hc)
+    · exact scan_word_not_close c (hname.2 c hc)
+    · exact wsChar_not_close c (hg4 c hc)
+
+/-- the line that follows the `;` of a member offers no later `];` -/
+theorem rest_lineW (post : List Mem) (closePre g3 name g4 : Str)
+    (hpost : ∀ q ∈ post, MemOK q) (hrest : restNoBr post) (hcp : tdWsOK false closePre = true)
+    (hg3 : ∀ c ∈ g3, wsChar c = true) (hg4 : ∀ c ∈ g4, wsChar c = true) (hname : wordy name) :
+    ssOK false (((post.map Mem.text).flatten ++ (closePre ++ '}' :: (g3 ++ (name ++ (g4 ++ [';']))))).takeWhile
+      (· != '\n')) = true := by
+  induction post with
+  | nil =>
+    simp only [List.map_nil, List.flatten_nil, List.nil_append]
+    have := tail_ss closePre g3 name g4 hcp hg3 hg4 hname false
+    rw [← List.takeWhile_append_dropWhile (p := (· != '\n'))
+      (l := closePre ++ '}' :: (g3 ++ (name ++ (g4 ++ [';']))))] at this
+    exact ssOK_prefix _ _ _ this
+  | cons q post' ih =>
+    have hq := hpost q (by simp)
+    obtain ⟨hpne, hptd, hgne, hgb, hT, hN, hA⟩ := hq
+    by_cases hn : '\n' ∈ q.pre
+    · have e : ((q :: post').map Mem.text).flatten ++ (closePre ++ '}' :: (g3 ++ (name ++ (g4 ++ [';'])))) =
+          q.pre ++ (q.T ++ q.gap ++ (q.N ++ (q.arr ++ ';' :: ((post'.map Mem.text).flatten ++
+            (closePre ++ '}' :: (g3 ++ (name ++ (g4 ++ [';'])))))))) := by
+        simp only [List.map_cons, List.flatten_cons, List.append_assoc]
+        rw [text_app]; simp only [List.append_assoc]
+      rw [e, takeWhile_app_of_stop _ _ _ ⟨'\n', hn, by decide⟩]
+      apply ssOK_noSemi
+      intro hm
+      exact tdWs_no_semi false _ hptd (mem_of_takeWhile _ _ _ hm)
+    · have hr : q.arr = [] ∧ restNoBr post' := by
+        rcases hrest with h | h
+        · exact absurd h hn
+        · exact h
+      have e : ((q :: post').map Mem.text).flatten ++ (closePre ++ '}' :: (g3 ++ (name ++ (g4 ++ [';'])))) =
+          ((q.pre ++ (q.T ++ (q.gap ++ q.N))) ++ [';']) ++ ((post'.map Mem.text).flatten ++
+            (closePre ++ '}' :: (g3 ++ (name ++ (g4 ++ [';']))))) := by
+        simp only [List.map_cons, List.flatten_cons, List.append_assoc]
+        rw [text_app, hr.1]; simp only [List.append_assoc, List.nil_append, List.cons_append]
+      have hX : ∀ c ∈ q.pre ++ (q.T ++ (q.gap ++ q.N)), c ≠ ';' ∧ c ≠ '\n' := by
+        intro c hc
+        simp only [List.mem_append] at hc
+        rcases hc with hc | hc | hc | hc
+        · exact ⟨fun e => tdWs_no_semi false _ hptd (e ▸ hc), fun e => hn (e ▸ hc)⟩
+        · exact ⟨scan_word_ne c ';' (hT.2 c hc) (by decide), scan_word_ne c '\n' (hT.2 c hc) (by decide)⟩
+        · have := hgb c hc
+          simp only [isBlank, Bool.or_eq_true, beq_iff_eq] at this
+          rcases this with h | h <;> subst h <;> exact ⟨by decide, by decide⟩
+        · exact ⟨scan_word_ne c ';' (hN.2 c hc) (by decide), scan_word_ne c '\n' (hN.2 c hc) (by decide)⟩
+      rw [e, takeWhile_app_all]
+      · rw [ssOK_append, Bool.and_eq_true]
+        refine ⟨?_, ?_⟩
+        · apply ssOK_then_semi
+          · exact fun hm => (hX _ hm).1 rfl
+          · rw [show q.pre ++ (q.T ++ (q.gap ++ q.N)) = (q.pre ++ (q.T ++ q.gap)) ++ q.N by simp, lastCl_append]
+            exact lastCl_plain _ _ hN.1 (fun c hc => scan_word_not_close c (hN.2 c hc))
+        · rw [lastCl_append]
+          exact ih (fun x hx => hpost x (by simp [hx])) hr.2
+      · intro c hc
+        simp only [List.mem_append, List.mem_singleton] at hc
+        rcases hc with hc | hc
+        · have := (hX c (by simpa only [List.mem_append] using hc)).2
+          simp [this]
+        · subst hc; decide
+
+/-- `type()`'s search on a struct definition in any layout in which a declaration written with
+brackets is the last such declaration of its line -/
+theorem typeSearch_layW (ms : List Mem) (closePre g1 g2 g3 name g4 : Str)
     (hms : ∀ m ∈ ms, MemOK m) (hnd : (ms.map (·.N)).Nodup)
-    (hnl : ∀ m ∈ ms.tail, '\n' ∈ m.pre)
+    (hline : LineOK ms)
     (hcp : tdWsOK false closePre = true)
     (hg1 : g1 ≠ [] ∧ ∀ c ∈ g1, wsChar c = true) (hg2 : ∀ c ∈ g2, wsChar c = true)
     (hg3 : ∀ c ∈ g3, wsChar c = true) (hg4 : ∀ c ∈ g4, wsChar c = true)
@@ -640,15 +807,14 @@ theorem typeSearch_lay (ms : List Mem) (closePre g1 g2 g3 name g4 : Str)
     refine ⟨hms p (by simp [hp]), ?_⟩
     rw [List.map_append, List.nodup_append] at hnd
     exact hnd.2.2 p.N (List.mem_map.mpr ⟨p, hp, rfl⟩) m.N (by simp)
-  have hpost : ∀ q ∈ post, MemOK q ∧ '\n' ∈ q.pre := by
-    intro q hq
-    refine ⟨hms q (by simp [hq]), hnl q ?_⟩
-    cases pre with
-    | nil => simpa using hq
-    | cons p pre' => simp [hq]
+  have hpost : ∀ q ∈ post, MemOK q := fun q hq => hms q (by simp [hq])
   have hst : "struct".toList = ['s', 't', 'r', 'u', 'c', 't'] := by decide
   have htd : "typedef".toList = ['t', 'y', 'p', 'e', 'd', 'e', 'f'] := by decide
-  have hL := rest_line post closePre g3 name g4 hpost hcp hg3 hg4 hname _ rfl
+  have hL : m.arr = [] ∨ ssOK false (((post.map Mem.text).flatten ++
+      (closePre ++ '}' :: (g3 ++ (name ++ (g4 ++ [';']))))).takeWhile (· != '\n')) = true := by
+    rcases LineOK_split pre m post hline with h | h
+    · exact Or.inl h
+    · exact Or.inr (rest_lineW post closePre g3 name g4 hpost h hcp hg3 hg4 hname)
   have hJ0 : Junk (g1 ++ "struct".toList ++ g2 ++ ['{']) := by
     apply junk_of_plain
     intro c hc
@@ -673,6 +839,18 @@ theorem typeSearch_lay (ms : List Mem) (closePre g1 g2 g3 name g4 : Str)
   unfold typeSearch
   rw [e]
   exact hF _ (Nat.lt_succ_self _)
+
+/-- the same under the assumption of the first extension round: every declaration after the first is
+preceded by a newline -/
+theorem typeSearch_lay (ms : List Mem) (closePre g1 g2 g3 name g4 : Str)
+    (hms : ∀ m ∈ ms, MemOK m) (hnd : (ms.map (·.N)).Nodup)
+    (hnl : ∀ m ∈ ms.tail, '\n' ∈ m.pre)
+    (hcp : tdWsOK false closePre = true)
+    (hg1 : g1 ≠ [] ∧ ∀ c ∈ g1, wsChar c = true) (hg2 : ∀ c ∈ g2, wsChar c = true)
+    (hg3 : ∀ c ∈ g3, wsChar c = true) (hg4 : ∀ c ∈ g4, wsChar c = true)
+    (hname : wordy name) (m : Mem) (hm : m ∈ ms) :
+    typeSearch m.N (structL g1 g2 (bodyL ms closePre) g3 name g4) = some (m.T, m.arr) :=
+  typeSearch_layW ms closePre g1 g2 g3 name g4 hms hnd (LineOK_of_nl ms hnl) hcp hg1 hg2 hg3 hg4 hname m hm
 
 /-! ### `bodyDefs` on a laid-out body -/
 
